@@ -40,6 +40,23 @@ Qed.
 Lemma flat_map_singleton {A B} (f : A -> B) l : flat_map (fun x => [f x]) l = map f l.
 Proof. induction l as [|x l IH]; [reflexivity|]. cbn [flat_map map app]. rewrite IH. reflexivity. Qed.
 
+Lemma filter_perm {A} (p : A -> bool) l1 l2 :
+  Permutation l1 l2 -> Permutation (filter p l1) (filter p l2).
+Proof.
+  intros H. induction H as [|x l1 l2 H IH|x y l|l1 l2 l3 H1 IH1 H2 IH2]; cbn [filter].
+  - constructor.
+  - destruct (p x); [apply perm_skip|]; exact IH.
+  - destruct (p x), (p y); try apply perm_swap; reflexivity.
+  - transitivity (filter p l2); assumption.
+Qed.
+
+Lemma filter_map_comm {A B} (p : B -> bool) (f : A -> B) l :
+  filter p (map f l) = map f (filter (fun x => p (f x)) l).
+Proof.
+  induction l as [|x l IH]; [reflexivity|]. cbn [map filter].
+  destruct (p (f x)); cbn [map]; rewrite IH; reflexivity.
+Qed.
+
 Lemma filter_true {A} (l : list A) : filter (fun _ => true) l = l.
 Proof. induction l as [|x l IH]; [reflexivity|]. cbn [filter]. rewrite IH. reflexivity. Qed.
 
